@@ -348,3 +348,171 @@ def o_c10(scn, obs, runner):
                 if o["res"] != want:
                     fails.append(dict(op=i, why="device reported sync FAIL %r (%s); push: %s" % (pr[1][:40], pr[2], o["res"][:100])))
     return fails
+
+
+# ---------------------------------------------------------------------------------------------------------------
+def o_c04(scn, obs, runner):
+    """Per-stream protocol monitor over the simulator's ordered packet log (host and device packets in arrival order)."""
+    fails = []
+    for ci, c in enumerate(runner.link.used):
+        streams = {}          # local id -> state dict
+        used_ids = set()
+        for who, cmd, a0, a1, d in c.sim.log:
+            if who == "host":
+                if cmd == b"OPEN":
+                    if a0 == 0 or a0 >= 2 ** 32 or a1 != 0 or not d.endswith(b"\0"):
+                        fails.append("OPEN(%d,%d,%r) malformed" % (a0, a1, d[-4:]))
+                    if a0 in streams and not streams[a0]["done"]:
+                        fails.append("OPEN reuses live local id %d" % a0)
+                    streams[a0] = dict(remote=None, owed=0, host_wrte_inflight=False, host_closed=False, dev_closed=False, done=False, okays_to_answer=0)
+                elif cmd in (b"OKAY", b"WRTE", b"CLSE"):
+                    st = streams.get(a0)
+                    if st is None:
+                        fails.append("%s on unknown stream %d" % (cmd.decode(), a0))
+                        continue
+                    if st["remote"] is not None and a1 != st["remote"]:
+                        fails.append("%s carries remote id %d, the device announced %d" % (cmd.decode(), a1, st["remote"]))
+                    if st["host_closed"]:
+                        fails.append("%s sent on stream %d after its CLOSE" % (cmd.decode(), a0))
+                    if cmd == b"OKAY":
+                        if st["owed"] <= 0:
+                            fails.append("spurious OKAY on stream %d" % a0)
+                        st["owed"] -= 1
+                    elif cmd == b"WRTE":
+                        if st["host_wrte_inflight"]:
+                            fails.append("second WRTE on stream %d before the previous one was acknowledged" % a0)
+                        st["host_wrte_inflight"] = True
+                    else:
+                        st["host_closed"] = True
+                        if st["dev_closed"]:
+                            st["done"] = True
+            else:
+                if cmd in (b"OKAY", b"WRTE", b"CLSE"):
+                    st = streams.get(a1)
+                    if st is None:
+                        continue          # foreign traffic
+                    if cmd == b"OKAY":
+                        if st["remote"] is None:
+                            st["remote"] = a0
+                        st["host_wrte_inflight"] = False
+                    elif cmd == b"WRTE":
+                        st["owed"] += 1
+                    else:
+                        st["dev_closed"] = True
+                        if st["host_closed"]:
+                            st["done"] = True
+        # end of connection: a delivered device WRTE must have been acknowledged unless the operation failed / device went on bursting
+        for f in fails:
+            pass
+    return [dict(op=None, why=f) for f in fails]
+
+
+def o_c04_okays(scn, obs, runner):
+    """each device WRITE delivered to the caller is acknowledged with exactly one OKAY (checked when every op succeeded)."""
+    fails = []
+    if not all(res_ok(o) for o in obs):
+        return fails
+    for c in runner.link.used:
+        per = {}
+        for who, cmd, a0, a1, d in c.sim.log:
+            if who == "dev" and cmd == b"WRTE" and a1 in c.sim.streams and c.sim.streams[a1].remote == a0:
+                per.setdefault(a1, [0, 0])[0] += 1
+            if who == "host" and cmd == b"OKAY":
+                per.setdefault(a0, [0, 0])[1] += 1
+        for l, (w, k) in per.items():
+            if w != k:
+                fails.append(dict(op=None, why="stream %d: device sent %d WRTE, host acknowledged %d" % (l, w, k)))
+    return fails
+
+
+TIMEOUT_KINDS = ("err AdbTimeoutError", "err TransportTimeout")
+
+
+def o_c11(scn, obs, runner):
+    """a stalled device yields a timeout error within a bounded virtual time; never a hang, never fabricated data."""
+    fails = []
+    prev_now = scn.get("now", 1 << 40)
+    for i, (op, o) in enumerate(zip(scn["ops"], obs)):
+        elapsed = o["now"] - prev_now
+        prev_now = o["now"]
+        rt, tt, t = op.get("rt", 10240), op.get("tt"), op.get("t")
+        if rt is None or rt < 0 or (tt is not None and tt < 0) or (t is not None and t < 0):
+            continue      # no bound claimed for None/negative configurations (only agreement with the model)
+        if o["res"] == "err Hang":
+            fails.append(dict(op=i, why="%s blocked forever (tt=%s rt=%s)" % (op["op"], tt, rt)))
+            continue
+        eff_rt = rt if t is None else min(rt, t)
+        eff_tt = eff_rt if tt is None else min(tt, eff_rt)
+        if op["op"] == "connect":
+            eff_tt = max(eff_tt, op.get("at", 10240))
+        dt = max([int(e.get("dt", 1)) for e in scn["envs"]] + [1])
+        # every wait is bounded by read + transport timeout (+ one call); an operation is a bounded number of phases
+        per_wait = eff_rt + eff_tt + 2 * dt
+        packets = sum(len(c.segs) for c in runner.link.used) + sum(len(c.calls) for c in runner.link.used)
+        bound = 6 * per_wait + (t or 0) + packets * dt + 64 * dt
+        if elapsed > bound:
+            fails.append(dict(op=i, why="%s took %d ticks, bound %d (rt=%s tt=%s t=%s)" % (op["op"], elapsed, bound, rt, tt, t)))
+    return fails
+
+
+def o_c11_stalled_outcome(scn, obs, runner):
+    """ops that never got what they waited for must end in a timeout kind (or, for pull, the error met while closing)."""
+    fails = []
+    if scn.get("stall") not in ("silent",):
+        return fails
+    for i, (op, o) in enumerate(zip(scn["ops"], obs)):
+        if res_ok(o):
+            continue
+        if i > 0 and any(not res_ok(p) for p in obs[:i]):
+            break     # only the FIRST failing operation is the one that met the silence with a clean stream
+        if o["res"] in TIMEOUT_KINDS or o["res"].startswith("err AdbConnectionError"):
+            continue
+        if op.get("rt") is None or (op.get("rt") or 0) < 0 or (op.get("tt") is not None and op.get("tt") < 0):
+            continue
+        fails.append(dict(op=i, why="silent device: %s ended with %s instead of a timeout error" % (op["op"], o["res"][:60])))
+    return fails
+
+
+def o_c10_expect(scn, obs, runner):
+    fails = []
+    for env in scn["envs"]:
+        exp = env["sim"].get("expect")
+        if not exp:
+            continue
+        kind, msg = exp
+        o = obs[-1]
+        want = "err " + kind + ((":" + hx(py_decode(msg).encode("utf8"))) if msg is not None else "")
+        if o["res"] != want:
+            fails.append(dict(op=len(obs) - 1, why="%s: device sent an invalid/FAIL record (%s); result %s, expected %s" % (scn["ops"][-1]["op"], scn.get("failkind"), o["res"][:80], want[:80])))
+    return fails
+
+
+def o_c03_corrupt(scn, obs, runner):
+    fails = []
+    for ci, c in enumerate(runner.link.used):
+        cor = getattr(c.sim, "corrupted", None)
+        if not cor:
+            continue
+        stream = b"".join(raw for need, raw in c.segs)
+        pos = stream.find(cor["raw"])
+        end = pos + len(cor["raw"]) if pos >= 0 else None
+        kinds = [o["res"] for o in obs if o.get("conn") == ci]
+        if cor["kind"] == "sum" and cor["nonempty"]:
+            if c.in_off >= (end or 1 << 60) and "err InvalidChecksumError" not in kinds:
+                fails.append(dict(op=None, why="a packet with a wrong checksum was consumed without InvalidChecksumError (results: %r)" % kinds))
+        if cor["kind"] == "cmd":
+            if c.in_off >= (end or 1 << 60) and "err InvalidCommandError" not in kinds:
+                fails.append(dict(op=None, why="a packet with an unknown command word was consumed without InvalidCommandError (results: %r)" % kinds))
+    return fails
+
+
+def same_results(a_obs, b_obs, fields=("res", "peer", "sink", "avail", "maxdata", "lid")):
+    for i, (a, b) in enumerate(zip(a_obs, b_obs)):
+        for f in fields:
+            x, y = a.get(f), b.get(f)
+            if f == "sink":
+                x = "-" if x == "N" else x
+                y = "-" if y == "N" else y
+            if x != y:
+                return i, f, str(x)[:100], str(y)[:100]
+    return None
